@@ -66,7 +66,7 @@ Clauses(e) ==
       TapNothingBeforeStart |-> (e.ev = "TapAct" \/ (IsTap(e) /\ e.s1 # stage)) => TapNotBeforeStart(e.t),
       TapGapAtLeast        |-> e.ev = "TapAct" => TapGapAtLeast(e.t)
     ]
-Failing(e) == {c \in DOMAIN Clauses(e) : ~Clauses(e)[c]}
+Failing(e) == LET cl == Clauses(e) IN {c \in DOMAIN cl : ~cl[c]}
 
 Step(e) ==
     CASE e.ev = "Act"     -> Act(e.t, e.node, e.action, e.app)
